@@ -196,6 +196,26 @@ func (g *HTTPGroup) verifInvMembers() bool {
 	return g.createFuncs != nil && (!g.closed || len(g.createFuncs) == 0)
 }
 
+// The rotation list and the member table go together: every name in the
+// rotation is a member, and no name occurs twice (so removing a leaving member
+// once removes it for good, and requests never rotate onto a proxy that left).
+//
+//verif:invariant HTTPGroup mu
+func (g *HTTPGroup) verifInvRotation(j, k int) bool {
+	if j < 0 || j >= len(g.pxyNames) {
+		return true
+	}
+	if !verif.Has(g.createFuncs, g.pxyNames[j]) {
+		return false
+	}
+	return k < 0 || k >= len(g.pxyNames) || k == j || g.pxyNames[k] != g.pxyNames[j]
+}
+
+//verif:loop (*~/server/group.HTTPGroup).UnRegister 1 inv=verifLoopUnRegister args=g,proxyName,rangeindex
+func verifLoopUnRegister(g *HTTPGroup, proxyName string, idx int, m int) bool {
+	return m < 0 || m > idx || m >= len(g.pxyNames) || g.pxyNames[m] != proxyName
+}
+
 //verif:contract ~/server/group.NewHTTPGroup
 //verif:props C13
 func verif_NewHTTPGroup(ctl *HTTPGroupController) {
@@ -247,13 +267,16 @@ func verif_HTTPGroup_Register(g *HTTPGroup, proxyName, group, groupKey string, r
 //
 //verif:contract (*~/server/group.HTTPGroup).UnRegister
 //verif:props C13 C10 C06
-func verif_HTTPGroup_UnRegister(g *HTTPGroup, proxyName string) {
+func verif_HTTPGroup_UnRegister(g *HTTPGroup, proxyName string, q int) {
 	dead := g.closed
 	d0, l0, u0 := g.domain, g.location, g.routeByHTTPUser
 	verif.ResetEvents()
 	isEmpty := g.UnRegister(proxyName)
 	const evDel = "Routers).Del"
 	verif.Ensures(!verif.Has(g.createFuncs, proxyName), "member_removed")
+	if q >= 0 && q < len(g.pxyNames) {
+		verif.Ensures(g.pxyNames[q] != proxyName, "leaving_member_leaves_the_rotation")
+	}
 	if isEmpty {
 		verif.Ensures(!dead && g.closed && len(g.createFuncs) == 0, "last_leave_kills_group")
 		verif.Ensures(verif.CallCount(evDel) == 1 && verif.CalledWith(evDel, 1, d0) && verif.CalledWith(evDel, 2, l0) && verif.CalledWith(evDel, 3, u0), "last_leave_removes_group_route_once")
